@@ -10,7 +10,10 @@ harness/extract_options.py: every public method x option x ignore_feature settin
 rewrites lean/Generated/{Tables,Vocab,Sites,Options}.lean.  The proof step then re-checks the theorems
 of lean/Props/C20.lean against the regenerated tables.  `run` states the property directly on
 the probe results: an entry that is `ignored` / an option that is dropped silently and is not a
-listed known finding is a VIOLATION whose replay is the probing call.
+listed known finding is a VIOLATION whose replay is the probing call; an opt-out that does not
+work is a VIOLATION always.  The witnesses of the repaired findings (status "fixed": the silent
+options and ineffective opt-outs repaired by d0b630a, 08d4d98, b1f1430, a8af69f, 1dab744, 51ec724,
+4a36577, 612f87a, top-level `$not` by b0b21d1) are probed again on every run (`judge_fixed`).
 """
 import collections
 import json
@@ -81,7 +84,10 @@ def known_site_pairs():
 
 
 def known_lists():
-    pos, pairs, silent, optout = [], [], [], []
+    """positions, (position, name) pairs and options listed as KNOWN findings.  An opt-out that
+    does not work has no list any more (every such finding is repaired in the library and
+    Props.C20.opt_out_is_honoured has no exception): it is a VIOLATION wherever it shows."""
+    pos, pairs, silent = [], [], []
     for e in common.load_known('C20'):
         if e.get('status') != 'known':
             continue
@@ -96,12 +102,12 @@ def known_lists():
             else:
                 pairs.append((w['position'], w['name']))
         elif w['opted_out']:
-            optout.append((w['cls'], w['method'], w['option']))
+            continue      # an `optout-ineffective:*` entry excuses nothing
         else:
             silent.append((w['cls'], w['method'], w['option']))
     pos.sort(key=extract_vocab.POSITIONS.index)
     pairs.sort(key=lambda p: (extract_vocab.POSITIONS.index(p[0]), p[1]))
-    return pos, pairs, sorted(silent), sorted(optout)
+    return pos, pairs, sorted(silent)
 
 
 def regenerate(ctx):
@@ -109,7 +115,7 @@ def regenerate(ctx):
     T, entries, meta = extract_vocab.probe_vocab(ctx.seed)
     opts = extract_options.probe_options()
     pairs = extract_options.probe_pairs(opts)
-    kpos, kpairs, ksilent, koptout = known_lists()
+    kpos, kpairs, ksilent = known_lists()
     derived = extract_sites.derive_sites(T)
     site_entries = extract_sites.probe_sites(
         extract_vocab.Prober(T, extract_vocab.load_vocab()), meta['kinds'], derived,
@@ -120,7 +126,7 @@ def regenerate(ctx):
             ('Vocab.lean', gen_c20_lean.emit_vocab(T, entries, kpos, kpairs)),
             ('Sites.lean', gen_c20_lean.emit_sites(T, derived, site_entries,
                                                    known_site_pairs())),
-            ('Options.lean', gen_c20_lean.emit_options(opts, ksilent, koptout, pairs))):
+            ('Options.lean', gen_c20_lean.emit_options(opts, ksilent, pairs))):
         if gen_c20_lean.write_if_changed(os.path.join(GEN, fname), text):
             changed.append(fname)
     ctx.c20 = {'T': T, 'entries': entries, 'meta': meta, 'opts': opts, 'pairs': pairs,
@@ -249,7 +255,7 @@ def compare_sites_with_model(entries):
     return bad
 
 
-def judge_options(ctx, opts, ksilent, koptout):
+def judge_options(ctx, opts, ksilent):
     bad = []
     for e in opts:
         if e['disp'] == 'unprobed':
@@ -268,14 +274,10 @@ def judge_options(ctx, opts, ksilent, koptout):
                     rank=len(e['call']))
         if e['optedOut'] and e['option'] in extract_options.IGNORABLE and \
                 e['disp'] == 'raisesNotImplemented':
-            if key in koptout:
-                fid = 'optout-ineffective:%s.%s:%s' % key
-                ctx.known_seen[fid] = ctx.known_seen.get(fid, 0) + 1
-            else:
-                bad.append(e)
-                ctx.violation(option_replay(
-                    e, 'the option still raises NotImplementedError although the caller has '
-                       'opted out with ignore_feature'), rank=1000 + len(e['call']))
+            bad.append(e)
+            ctx.violation(option_replay(
+                e, 'the option still raises NotImplementedError although the caller has '
+                   'opted out with ignore_feature'), rank=1000 + len(e['call']))
     return bad
 
 
@@ -395,11 +397,75 @@ def judge_lazy(ctx):
             'silent_new': bad}
 
 
+def judge_fixed(ctx):
+    """the witnesses of the REPAIRED findings (known_findings.json, status "fixed") are probed
+    again on every run, whatever the regenerated tables contain (a method may have left the
+    option matrix, a name the vocabulary): the repaired behaviour coming back is a VIOLATION whose
+    replay is the witness call.  A fixed entry excuses nothing - it is in no `known` list."""
+    import c20_lazyctx
+    probed, back, gone = [], [], []
+    lazy_silent = None
+    for e in common.load_known('C20'):
+        w = e.get('witness')
+        if e.get('status') != 'fixed' or not w:
+            continue
+        probed.append(e['id'])
+        rep = None
+        if w['kind'] == 'option':
+            now = extract_options.probe_one(w['cls'], w['method'], w['option'], w['opted_out'])
+            if now is None:
+                gone.append('%s: the method no longer takes the option' % e['id'])
+            elif now['disp'] == 'unprobed':
+                gone.append('%s: %s' % (e['id'], now.get('why')))
+            elif now['disp'] == w['observed']:
+                rep = option_replay(
+                    now, 'a repaired finding is back: the option is dropped silently (the call '
+                         'succeeds although the feature is not implemented and the caller has '
+                         'not opted out)' if not w['opted_out'] else
+                    'a repaired finding is back: the option still raises NotImplementedError '
+                    'although the caller has opted out with ignore_feature')
+        elif w['kind'] == 'lazyctx':
+            if lazy_silent is None:
+                lazy_silent = c20_lazyctx.silent_contexts()
+            if w['context'] in lazy_silent:
+                rep = {'kind': 'a repaired finding is back: an unsupported expression operator '
+                               'is skipped silently', 'what': 'lazyctx', 'context': w['context'],
+                       'python': w.get('python')}
+        elif str(w['position']).startswith('site:'):
+            now = extract_sites.probe_one(w['position'][5:], w['dispatcher_position'], w['name'])
+            if now is None:
+                gone.append('%s: the source no longer has this site' % e['id'])
+            elif now['disp'] == 'ignored':
+                rep = vocab_replay(now, 'a repaired finding is back: the name is accepted '
+                                        'silently at this part of the stage')
+        else:
+            name = w['representative'] if w['name'] == '*' else w['name']
+            now = extract_vocab.probe_one(w['position'], name)
+            if now['disp'] == 'ignored':
+                rep = vocab_replay(now, 'a repaired finding is back: the name is accepted and '
+                                        'takes no part in the result')
+        if rep is None:
+            continue
+        back.append(e['id'])
+        rep['repaired_finding'] = e['id']
+        rep['repaired_by'] = e.get('commit')
+        # the same call may already be reported from the regenerated table: say it once
+        same = [v for v in ctx.violations
+                if (rep.get('call') and v[2].get('call') == rep['call']) or
+                (rep.get('probe') and v[2].get('probe') == rep['probe'] and
+                 v[2].get('position') == rep.get('position'))]
+        if same:
+            same[0][2].update(repaired_finding=e['id'], repaired_by=e.get('commit'))
+        else:
+            ctx.violation(rep, rank=0)
+    return {'witnesses_probed': len(probed), 'back': back, 'no_longer_probable': gone}
+
+
 def run(ctx, proof, driver_ok):
     st = getattr(ctx, 'c20', None) or regenerate(ctx)
     T, entries, meta, opts = st['T'], st['entries'], st['meta'], st['opts']
     V = extract_vocab.load_vocab()
-    kpos, kpairs, ksilent, koptout = known_lists()
+    kpos, kpairs, ksilent = known_lists()
     ksites = known_site_pairs()
     derived, site_entries = st['derived'], st['site_entries']
     info = site_info(derived)
@@ -408,10 +474,11 @@ def run(ctx, proof, driver_ok):
     bad_vocab = judge_vocab(ctx, entries, kpos, kpairs)
     bad_sites = judge_vocab(ctx, site_entries, kpos, kpairs, ksites)
     site_list_problems = judge_site_list(ctx, derived)
-    bad_opts = judge_options(ctx, opts, ksilent, koptout)
+    bad_opts = judge_options(ctx, opts, ksilent)
     pairs = st.get('pairs') or []
     bad_pairs = judge_pairs(ctx, pairs, ksilent)
     lazy = judge_lazy(ctx)
+    fixed = judge_fixed(ctx)
     switch_failures, switch_checks = extract_options.check_feature_switches()
     for msg in switch_failures:
         ctx.violation({'kind': 'not_implemented.py: the opt-out switch does not do what it says',
@@ -539,6 +606,7 @@ def run(ctx, proof, driver_ok):
         'site_list_problems': site_list_problems,
         'unlisted_ignored_site_entries': len(bad_sites),
         'lazy_expression_contexts': lazy,
+        'repaired_findings': fixed,
         'table_entries': len(entries),
         'dispositions': dict(hist),
         'dispositions_by_position': per_pos,
@@ -563,7 +631,7 @@ def run(ctx, proof, driver_ok):
 
 def replay(ctx, path):
     e = json.load(open(path))
-    kpos, kpairs, ksilent, koptout = known_lists()
+    kpos, kpairs, ksilent = known_lists()
     if e.get('what') == 'vocab' and str(e.get('position', '')).startswith('site:'):
         now = extract_sites.probe_one(e['position'][5:], e['dispatcher_position'], e['name'])
         print(json.dumps(now and {k: now[k] for k in ('pos', 'base', 'name', 'disp', 'in_table',
@@ -601,7 +669,7 @@ def replay(ctx, path):
         now = extract_options.probe_one(e['cls'], e['method'], e['option'], e['opted_out'])
         print(json.dumps(now, default=repr))
         if now is not None:
-            judge_options(ctx, [now], ksilent, koptout)
+            judge_options(ctx, [now], ksilent)
     else:
         print(json.dumps({'note': 'this replay names a theorem, not an input', 'file': path}))
         return 1
